@@ -10,9 +10,10 @@ def run_history(seed, balance=False, steps=60):
     rnd = random.Random(seed)
     nb = 2 if balance else 1
     snd = Z.ZMQSender([f'tcp://*:{7000 + 2 * i}' for i in range(nb)], 'srv', balance=balance)
-    clients = [dict(cid=f'c{i}', eph=(1 if (i == 2 and rnd.random() < 0.5) else 0), pull=snd.pulls[i % nb], req=0, got=0, prev=-1, stalled=False) for i in range(rnd.randint(1, 3))]
+    clients = [dict(cid=f'c{i}', eph=(1 if (i >= 1 and rnd.random() < 0.5) else 0), pull=snd.pulls[i % nb], req=0, got=0, pending=False, tracked=False, prev=-1, stalled=False) for i in range(rnd.randint(1, 3))]
     published, bad, events = [], [], []
     next_payload = 0
+    fed = False
     for step in range(steps):
         c = rnd.random()
         if c < 0.55:
@@ -25,6 +26,8 @@ def run_history(seed, balance=False, steps=60):
                     env['eph'] = cl['eph']
                 cl['pull'].feed([json.dumps(env).encode()])
                 cl['req'] += 1
+                cl['pending'] = cl['tracked'] = True
+                fed = True
             events.append(f'{cl["cid"]} requests (prev {cl["prev"]})')
         elif c < 0.6 and len(clients) > 1 and not any(x['stalled'] for x in clients):
             cl = rnd.choice([x for x in clients if not x['eph']] or clients)
@@ -35,6 +38,18 @@ def run_history(seed, balance=False, steps=60):
             before = [len(p.sent) for p in snd.pubs]
             r = snd.send({'main': [None, b'payload%d' % next_payload]}, None, 0)
             used = [i for i, p in enumerate(snd.pubs) if any(len(m) > 2 for m in p.sent[before[i]:])]
+            fed_, fed = fed, False
+            # the gate as the properties state it: an output is ready when every synchronized consumer on it has asked (at least one of them); ephemeral ones never count
+            ready = []
+            for i in range(nb):
+                on = [x for x in clients if x['tracked'] and snd.pulls.index(x['pull']) == i] if balance else [x for x in clients if x['tracked']]
+                sync = [x for x in on if not x['eph']]
+                if sync and all(x['pending'] for x in sync):
+                    ready.append(i)
+            if ready and fed_ and not used:      # the gate is re-evaluated only when a message arrives during the send
+                eph_idle = [x['cid'] for x in clients if x['tracked'] and x['eph'] and not x['pending']]
+                bad.append(f'{"C05.no_gate" if eph_idle else "C03.gate"}: every synchronized consumer of output {ready} had asked but nothing was published'
+                           + (f' (ephemeral {eph_idle} had not asked again)' if eph_idle else ''))
             if used:
                 mid = json.loads(snd.pubs[used[0]].sent[-1][1])['mid']
                 events.append(f'send -> published id {mid} on pub {used}')
@@ -48,6 +63,7 @@ def run_history(seed, balance=False, steps=60):
                     tracked = any(k.startswith(cl['cid']) for k in snd.clients)
                     if tracked and (not balance or snd.pulls.index(cl['pull']) in used):
                         cl['got'] += 1
+                        cl['pending'] = False
                         cl['prev'] = mid if not cl['stalled'] else cl['prev']
                         if not cl['eph'] and cl['got'] > cl['req']:
                             bad.append(f'C04.one_publish_per_request: {cl["cid"]} was sent {cl["got"]} frames for {cl["req"]} requests')
